@@ -110,6 +110,8 @@ let meta (w : string array) =
     | [ "wa"; s ] -> step (PWStateA (z_of_int (int_of_string s)))
     | [ "wb" ] -> step PWStateB
     | [ "sv"; b ] -> step (PSVis (b = "1"))
+    | [ "rv"; k ] -> step (PRVis (z_of_int (int_of_string k)))
+    | [ "lv"; k ] -> step (PLVis (z_of_int (int_of_string k)))
     | [ "u"; s; nn ] -> step (PSetup (z_of_int (int_of_string s), nn = "1"))
     | [ "s" ] -> step RShare
     | [ "o" ] -> step RWState
@@ -142,6 +144,8 @@ let sysm (w : string array) =
     | [ "d"; i; it; pay ] -> step (SDeposit (ni i, { hit = zi it; hpay = zi pay }))
     | [ "v"; i; c ] -> step (SVis (ni i, zi c))
     | [ "sv"; i; b ] -> step (SSVis (ni i, b = "1"))
+    | [ "rv"; i; k ] -> step (SRVis (ni i, zi k))
+    | [ "lv"; i; k ] -> step (SLVis (ni i, zi k))
     | [ "w"; i; s ] -> step (SWState (ni i, zi s))
     | [ "wb"; i ] -> step (SWStateB (ni i))
     | [ "wa"; i; s ] -> step (SWStateA (ni i, zi s))
